@@ -5,6 +5,7 @@ symmetry and rotation links keep their relation for leader moves of any size; `u
 -/
 import CBV.Lemmas.C17
 import CBV.Lemmas.C17Unique
+import CBV.Lemmas.C17Chord
 import Mathlib.Algebra.Order.Field.Basic
 import CBV.Gen.TC17
 
@@ -494,6 +495,38 @@ theorem T_C17_rotation_composes (w1 w2 : Rat) (a o p : V3) (h1 : w1 * w1 + V3.do
 
 example : (2 : Rat) * 2 + V3.dot (⟨1, 2, 2⟩ : V3) ⟨1, 2, 2⟩ ≠ 0 ∧ (-1 : Rat) * (-1) + V3.dot (⟨1, 2, 2⟩ : V3) ⟨1, 2, 2⟩ ≠ 0 := by
   constructor <;> (c17_unfold; norm_num)
+
+/-! ### Round 6c: the chord-length parameters of a `LinearInterpolatedCurve` -/
+
+/-- `InterpolatorBase.params` (equalised), computed by the model from the segment-length witnesses: for positive
+    lengths the parameters start at 0, end at 1, increase strictly (so `polyEval` over `chordKnots` is covered by
+    `T_C17_curve_polyline_on`), and consecutive parameters differ by the segment's share of the total length — a
+    parameter is an arc-length fraction of the polyline -/
+theorem T_C17_chord_params (pts : List V3) (lens : List Rat) (hne : lens ≠ []) (hpos : ∀ l ∈ lens, 0 < l) :
+    knotsOk (chordKnots pts lens) = true ∧ (chordParams lens).head? = some 0 ∧
+      (chordParams lens).getLast? = some 1 ∧
+      List.zipWith (fun b a => b - a) (chordParams lens).tail (chordParams lens) = lens.map (· / sumR lens) := by
+  have hT := sumR_pos lens hne hpos
+  refine ⟨?_, rfl, ?_, ?_⟩
+  · apply knotsOk_zip
+    have := cumul_incr (sumR lens) hT lens 0 hpos
+    simpa [chordParams] using this
+  · unfold chordParams
+    have hc : cumul 0 lens ≠ [] := by
+      cases lens with
+      | nil => exact absurd rfl hne
+      | cons l ls => simp [cumul]
+    rw [List.getLast?_cons_of_ne_nil (by simpa using hc), List.getLast?_map, cumul_last lens 0 hne]
+    simp [ne_of_gt hT]
+  · unfold chordParams
+    simp only [List.tail_cons]
+    have e : (0 : Rat) :: (cumul 0 lens).map (· / sumR lens) = ((0 : Rat) :: cumul 0 lens).map (· / sumR lens) := by simp
+    rw [e, zipWith_sub_map_div, cumul_diff]
+
+example : ([3, 4] : List Rat) ≠ [] ∧ (∀ l ∈ ([3, 4] : List Rat), 0 < l) ∧ chordParams [3, 4] = [0, 3 / 7, 1] := by
+  refine ⟨by simp, ?_, ?_⟩
+  · intro l hl; simp at hl; rcases hl with rfl | rfl <;> norm_num
+  · simp [chordParams, cumul, sumR]; norm_num
 
 /-! ### Round 6b: `transform()` is a query -/
 
